@@ -191,6 +191,16 @@ class ModelFittingDataTree(ProblemSingleObjective):
                     cols=cols,
                     readout_times=times,
                 )
+
+                if isinstance(target_fit_range, FitRange2D) and times != len(
+                    self.readout.times
+                ):
+                    raise ValueError(
+                        "Fitting ranges have different lengths in dimension "
+                        f"'readout time': the target data have {times} readout "
+                        f"time(s) and the simulation has {len(self.readout.times)}."
+                    )
+
                 self._configure_weights(
                     weights=weights,
                     weights_from_file=weights_from_file,
